@@ -193,4 +193,36 @@ theorem goFragments_eq (specials : List Special) (hne : ∀ q ∈ specials, q.li
     rw [goSplitPass_eq sp (hne sp (by simp)) init _ (by omega)]
     exact ih (fun q hq => hne q (List.mem_cons_of_mem _ hq)) _
 
+/-! ### an empty special literal: the loop never terminates -/
+
+theorem indexOf_nil (v : Str) : indexOf v [] = some 0 := by
+  unfold indexOf
+  simp [isPrefixOf]
+
+/-- **Divergence witness (finding `empty-special-hang`).**  With an empty special literal and a non-empty text fragment the
+    loop inserts one more special fragment in front of the SAME text on every iteration: after `fuel` iterations the slice
+    is `done ++ fuel × [special] ++ [text v]` and the scan position still points at the text — the exit condition
+    `i >= len(fragments)` is never met and the slice grows without bound. -/
+theorem goSplitPass_empty_diverges (sp : Special) (hlit : sp.lit = []) (v : Str) (hv : v ≠ []) (fuel : Nat)
+    (done : List Frag) :
+    goSplitPass sp fuel (done ++ [.text v]) done.length = done ++ List.replicate fuel (.special sp) ++ [.text v] := by
+  induction fuel generalizing done with
+  | zero => simp [goSplitPass]
+  | succ fuel ih =>
+    unfold goSplitPass
+    rw [getElem?_append_len]
+    simp only
+    have htake : (done ++ [Frag.text v]).take done.length = done := by simp
+    have hdrop : (done ++ [Frag.text v]).drop (done.length + 1) = [] := by simp
+    have hmid : goMiddle sp v = [.special sp, .text v] := by
+      unfold goMiddle
+      rw [hlit, indexOf_nil]
+      simp [hv]
+    rw [htake, hdrop, hmid]
+    have := ih (done ++ [.special sp])
+    simp only [List.append_assoc, List.singleton_append, List.length_append, List.length_singleton,
+      List.cons_append, List.nil_append, List.append_nil] at this ⊢
+    rw [this, List.replicate_succ]
+    simp
+
 end OllamaVerif.Tok
